@@ -461,7 +461,9 @@ impl IoLoop {
                         // The server has told us why it is closing. Whatever its socket does
                         // after that - it may hang up without waiting for our CloseOk - does
                         // not replace that reason.
-                        (Err(_), ConnectionState::ServerClosing(_)) => (),
+                        (Err(Error::UnexpectedSocketClose), ConnectionState::ServerClosing(_))
+                        | (Err(Error::IoErrorReadingSocket { .. }), ConnectionState::ServerClosing(_))
+                        | (Err(Error::MalformedFrame), ConnectionState::ServerClosing(_)) => (),
                         (result, _) => result?,
                     }
                 }
